@@ -199,119 +199,124 @@ def setThr (s : St) (j : Nat) (th : Thread) : St := { s with thr := s.thr.set j 
 def setSlots (s : St) (i : Nat) (uc : UC) (slots : List (List Str × CSlot)) : St :=
   { s with ucs := s.ucs.set i { uc with slots := slots } }
 
-def thrStep (cfg : CCfg) (s : St) (j : Nat) (th : Thread) : St :=
+/-- the access the thread is parked in front of, and its thread-local continuation:
+    the new shared state and the thread's new local state -/
+def thrCore (cfg : CCfg) (s : St) (th : Thread) : St × Thread :=
   match th.pc with
   | .start =>
-    if th.r.method ∈ cfg.base.invalid then setThr s j { th with t0 := s.now, pc := .inval }
-    else if sNoCache ∈ th.r.pragma then setThr s j { th with t0 := s.now, pc := .handler true }
-    else setThr s j { th with t0 := s.now, pc := .sGet }
-  | .inval => setThr { s with store := adel s.store th.r.uri } j { th with pc := .handler false }
+    if th.r.method ∈ cfg.base.invalid then (s, { th with t0 := s.now, pc := .inval })
+    else if sNoCache ∈ th.r.pragma then (s, { th with t0 := s.now, pc := .handler true })
+    else (s, { th with t0 := s.now, pc := .sGet })
+  | .inval => ({ s with store := adel s.store th.r.uri }, { th with pc := .handler false })
   | .sGet =>
     match aget s.store th.r.uri with
-    | none => setThr s j { th with pc := .handler true }
-    | some i => setThr s j { th with pc := .uGet i }
+    | none => (s, { th with pc := .handler true })
+    | some i => (s, { th with pc := .uGet i })
   | .uGet i =>
     match s.ucs[i]? with
-    | none => s
+    | none => (s, th)
     | some uc =>
       match aget uc.slots (uc.sel.map (hget th.r)) with
-      | some (.val v) => setThr s j { th with pc := afterValue cfg th v }
+      | some (.val v) => (s, { th with pc := afterValue cfg th v })
       | some (.ev e) =>
-        if cfg.waits then setThr s j { th with pc := .eWait i e }
-        else setThr s j { th with pc := .handler true }
-      | none => setThr s j { th with pc := .uSetEv i }
+        if cfg.waits then (s, { th with pc := .eWait i e })
+        else (s, { th with pc := .handler true })
+      | none => (s, { th with pc := .uSetEv i })
   | .uSetEv i =>
     match s.ucs[i]? with
-    | none => s
+    | none => (s, th)
     | some uc =>
       let k := uc.sel.map (hget th.r)
-      setThr { setSlots s i uc (aset uc.slots k (.ev s.evs.length)) with
-               evs := s.evs ++ [⟨i, k, none, false⟩] } j { th with pc := .handler true }
+      ({ setSlots s i uc (aset uc.slots k (.ev s.evs.length)) with
+         evs := s.evs ++ [⟨i, k, none, false⟩] }, { th with pc := .handler true })
   | .eWait i e =>
     match s.evs[e]? with
-    | none => s
-    | some eo => setThr s j { th with timedOut := !eo.isSet, pc := .eRes i e }
+    | none => (s, th)
+    | some eo => (s, { th with timedOut := !eo.isSet, pc := .eRes i e })
   | .eRes i e =>
     match s.evs[e]? with
-    | none => s
+    | none => (s, th)
     | some eo =>
       match eo.result with
-      | some _ => setThr s j { th with pc := .eRes2 e }
-      | none => setThr s j { th with pc := .uSetEv i }
+      | some _ => (s, { th with pc := .eRes2 e })
+      | none => (s, { th with pc := .uSetEv i })
   | .eRes2 e =>
     match s.evs[e]? with
-    | none => s
+    | none => (s, th)
     | some eo =>
       match eo.result with
-      | some v => setThr s j { th with pc := afterValue cfg th v }
-      | none => setThr s j { th with pc := .handler true }    -- `wait` would return None
+      | some v => (s, { th with pc := afterValue cfg th v })
+      | none => (s, { th with pc := .handler true })    -- `wait` would return None
   | .handler c =>
     let g := s.nextGen
     let s1 : St := { s with nextGen := g + 1, log := s.log ++ [⟨g, th.r, th.p, th.t0⟩] }
     if c then
       match teeAct th.r th.p with
-      | .nothing => setThr s1 j { th with pc := .done (.miss g true) }
-      | .delete => setThr s1 j { th with pc := .tPop g }
-      | .put => setThr s1 j { th with pc := .pGet ⟨g, th.t0⟩ }
-    else setThr s1 j { th with pc := .done (.miss g false) }
-  | .tPop g => setThr { s with store := adel s.store th.r.uri } j { th with pc := .done (.miss g true) }
+      | .nothing => (s1, { th with pc := .done (.miss g true) })
+      | .delete => (s1, { th with pc := .tPop g })
+      | .put => (s1, { th with pc := .pGet ⟨g, th.t0⟩ })
+    else (s1, { th with pc := .done (.miss g false) })
+  | .tPop g => ({ s with store := adel s.store th.r.uri }, { th with pc := .done (.miss g true) })
   | .pGet v =>
     match aget s.store th.r.uri with
-    | some i => setThr s j { th with pc := .pLen v i }
-    | none => setThr s j { th with pc := .pNew v }
+    | some i => (s, { th with pc := .pLen v i })
+    | none => (s, { th with pc := .pNew v })
   | .pNew v =>
-    setThr { s with ucs := s.ucs ++ [⟨th.r.uri, sortDesc th.p.vary, []⟩],
-                    store := aset s.store th.r.uri s.ucs.length } j { th with pc := .pLen v s.ucs.length }
+    ({ s with ucs := s.ucs ++ [⟨th.r.uri, sortDesc th.p.vary, []⟩],
+              store := aset s.store th.r.uri s.ucs.length }, { th with pc := .pLen v s.ucs.length })
   | .pLen v i =>
-    if s.store.length < cfg.base.maxobjects then setThr s j { th with pc := .pCur v i }
-    else setThr s j { th with pc := .done (.miss v.gen true) }
+    if s.store.length < cfg.base.maxobjects then (s, { th with pc := .pCur v i })
+    else (s, { th with pc := .done (.miss v.gen true) })
   | .pCur v i =>
     if th.p.size < cfg.base.maxobjSize ∧ s.cursize + th.p.size < cfg.base.maxsize then
-      setThr s j { th with pc := .pSetdef v i (s.cursize + th.p.size) }
-    else setThr s j { th with pc := .done (.miss v.gen true) }
+      (s, { th with pc := .pSetdef v i (s.cursize + th.p.size) })
+    else (s, { th with pc := .done (.miss v.gen true) })
   | .pSetdef v i total =>
     let due := th.t0 + tps * cfg.base.delay
     match aget s.exps due with
-    | some b => setThr s j { th with pc := .pApp v i total b }
+    | some b => (s, { th with pc := .pApp v i total b })
     | none =>
-      setThr { s with exps := aset s.exps due s.buckets.length, buckets := s.buckets ++ [[]] } j
-        { th with pc := .pApp v i total s.buckets.length }
+      ({ s with exps := aset s.exps due s.buckets.length, buckets := s.buckets ++ [[]] },
+        { th with pc := .pApp v i total s.buckets.length })
   | .pApp v i total b =>
     match s.ucs[i]? with
-    | none => s
+    | none => (s, th)
     | some uc =>
       let k := uc.sel.map (hget th.r)
       let en : Entry := ⟨th.t0 + tps * cfg.base.delay, th.p.size, th.r.uri,
                          if cfg.base.sweepByNames then uc.sel else k⟩
-      setThr { s with buckets := s.buckets.set b ((s.buckets.getD b []) ++ [en]) } j
-        { th with pc := .pUGet v i total }
+      ({ s with buckets := s.buckets.set b ((s.buckets.getD b []) ++ [en]) },
+        { th with pc := .pUGet v i total })
   | .pUGet v i total =>
     match s.ucs[i]? with
-    | none => s
+    | none => (s, th)
     | some uc =>
       match aget uc.slots (uc.sel.map (hget th.r)) with
-      | some (.ev e) => setThr s j { th with pc := .pUSet v i total (some e) }
-      | _ => setThr s j { th with pc := .pUSet v i total none }
+      | some (.ev e) => (s, { th with pc := .pUSet v i total (some e) })
+      | _ => (s, { th with pc := .pUSet v i total none })
   | .pUSet v i total ex =>
     match s.ucs[i]? with
-    | none => s
+    | none => (s, th)
     | some uc =>
       let s1 := setSlots s i uc (aset uc.slots (uc.sel.map (hget th.r)) (.val v))
       match ex with
-      | some e => setThr s1 j { th with pc := .pERes v i total e }
-      | none => setThr s1 j { th with pc := .pCurW v total }
+      | some e => (s1, { th with pc := .pERes v i total e })
+      | none => (s1, { th with pc := .pCurW v total })
   | .pERes v _ total e =>
     match s.evs[e]? with
-    | none => s
-    | some eo => setThr { s with evs := s.evs.set e { eo with result := some v } } j
-                   { th with pc := .pESet v total e }
+    | none => (s, th)
+    | some eo => ({ s with evs := s.evs.set e { eo with result := some v } },
+                  { th with pc := .pESet v total e })
   | .pESet v total e =>
     match s.evs[e]? with
-    | none => s
-    | some eo => setThr { s with evs := s.evs.set e { eo with isSet := true } } j
-                   { th with pc := .pCurW v total }
-  | .pCurW v total => setThr { s with cursize := total } j { th with pc := .done (.miss v.gen true) }
-  | .done _ => s
+    | none => (s, th)
+    | some eo => ({ s with evs := s.evs.set e { eo with isSet := true } },
+                  { th with pc := .pCurW v total })
+  | .pCurW v total => ({ s with cursize := total }, { th with pc := .done (.miss v.gen true) })
+  | .done _ => (s, th)
+
+def thrStep (cfg : CCfg) (s : St) (j : Nat) (th : Thread) : St :=
+  setThr (thrCore cfg s th).1 j (thrCore cfg s th).2
 
 /-- is the pending access of the thread executable now?  (`timeout`: the schedule lets the
     antistampede timeout elapse) -/
